@@ -58,14 +58,29 @@ pub fn run_write(out: &mut Out, seed: u64, tier: &str) {
     let mut rng = Rng::new(seed ^ 0x1313);
     let n_cases = if tier == "thorough" { 4000 } else { 500 };
     let (mut worst, mut n_atoms_total, mut wide) = (0.0f64, 0usize, 0usize);
+    // what the changed source lines mention: that many atoms (and multiples), coordinates of that size, lines about that long
+    let h = hints();
+    let hinted_counts: Vec<usize> = { let mut v = vec![]; for &k in &h.ints { for m in [k.saturating_sub(1), k, k + 1, 2 * k, 3 * k] { if m >= 1 && m <= 4000 { v.push(m); } } } v };
+    let hinted_mags: Vec<f64> = h.magnitudes();
+    let hinted_lens: Vec<usize> = h.ints.iter().cloned().filter(|k| *k >= 40 && *k <= 1000).collect();
     for c in 0..n_cases {
         // mostly small files; one in twenty-five has a round or power-of-two atom count (and its neighbours): 64 ... 1025
-        let n = if c % 25 == 12 { *rng.pick(&[64usize, 100, 127, 128, 129, 200, 255, 256, 257, 300, 400, 401, 500, 512, 513, 600, 800, 1000, 1024, 1025]) } else { 1 + rng.below(8) };
+        let n = if c % 25 == 12 { *rng.pick(&[64usize, 100, 127, 128, 129, 200, 255, 256, 257, 300, 400, 401, 500, 512, 513, 600, 800, 1000, 1024, 1025]) }
+                else if c % 25 == 7 && !hinted_counts.is_empty() { hinted_counts[(c / 25) % hinted_counts.len()] }
+                else { 1 + rng.below(8) };
         let zs: Vec<usize> = (0..n).map(|_| if c % 3 == 0 { 1 + rng.below(118) } else { *rng.pick(&[1usize, 6, 7, 8, 17, 26, 78, 118]) }).collect();
         let mut xs: Vec<[f64; 3]> = (0..n).map(|_| [special_values(&mut rng), special_values(&mut rng), special_values(&mut rng)]).collect();
         let mut zs = zs;
         // one case in eight holds atoms that coincide exactly (everything at the origin, as `from_atomic_symbols` leaves a molecule;
         // a repeated atom) or differ by less than the printed resolution: every atom is still an atom of the file
+        if c % 16 == 5 && !hinted_mags.is_empty() { let k = rng.below(n); let q = rng.below(3); xs[k][q] = hinted_mags[(c / 16) % hinted_mags.len()] * *rng.pick(&[1.0, -1.0, 1.0000001, 0.9999999]); }
+        // a line of about L bytes: three components of about (L - 40) / 3 integer digits each (L - 40 >= 3 * 17 keeps them distinct)
+        if c % 16 == 13 && !hinted_lens.is_empty() {
+            let l = hinted_lens[(c / 16) % hinted_lens.len()];
+            let k = rng.below(n);
+            let digits = ((l.saturating_sub(26)) / 3).min(300).max(3) as i32;
+            for q in 0..3 { xs[k][q] = rng.range(1.0, 9.9) * 10f64.powi((digits - 3 + rng.below(5) as i32).min(306)) * if rng.chance(0.5) { -1.0 } else { 1.0 }; }
+        }
         // one case in sixteen has an atom with all three components enormous (a line of up to ~950 bytes), one with two of them
         if c % 16 == 9 { let k = rng.below(n); for q in 0..3 { xs[k][q] = rng.range(1.0, 10.0) * 10f64.powi(150 + rng.below(158) as i32) * if rng.chance(0.5) { -1.0 } else { 1.0 }; } }
         if c % 16 == 1 { let k = rng.below(n); for q in 1..3 { xs[k][q] = rng.range(1.0, 10.0) * 10f64.powi(200 + rng.below(108) as i32) * if rng.chance(0.5) { -1.0 } else { 1.0 }; } }
@@ -172,6 +187,10 @@ pub fn run_read(out: &mut Out, seed: u64, tier: &str) {
         b"7\n\nH 0 0 0\nH 0 0 1\n".to_vec(),
         b"-1\n\nH 0 0 0\n".to_vec(), b"2.0\n\nH 0 0 0\nH 0 0 1\n".to_vec(), b" 2 \n\nH 0 0 0\nH 0 0 1\nH 0 0 2\n".to_vec(),
     ];
+    // what the changed source lines mention: coordinates of that size and atom lines of about that many bytes
+    let h = hints();
+    let read_mags: Vec<f64> = h.magnitudes().into_iter().filter(|m| *m < 1e300).collect();
+    let read_lens: Vec<usize> = h.ints.iter().cloned().filter(|k| *k >= 7 && *k <= 2000).collect();
     for c in 0..n_cases {
         // a well-formed file with varied spellings
         let n = 1 + rng.below(6);
@@ -185,6 +204,7 @@ pub fn run_read(out: &mut Out, seed: u64, tier: &str) {
         for ai in 0..n {
             let zmax = if selfref && rng.chance(0.5) { 10 } else { 118 }; let z = 1 + rng.below(zmax);
             let mut v = [rng.range(-50.0, 50.0), if rng.chance(0.1) { 0.0 } else { rng.gauss() * 3.0 }, rng.range(-1e4, 1e4) * if rng.chance(0.5) { 1e-6 } else { 1.0 }];
+            if c % 5 == 3 && !read_mags.is_empty() && rng.chance(0.5) { let q = rng.below(3); v[q] = read_mags[rng.below(read_mags.len())] * *rng.pick(&[1.0, -1.0]); }
             if selfref { for k in 0..3 { if rng.chance(0.6) { v[k] = *rng.pick(&[z as f64, z as f64, ai as f64, (ai + 1) as f64, n as f64, 0.0, 1.0, -1.0, -(z as f64)]); } } }
             let t = [num_spelling(v[0], &mut rng), num_spelling(v[1], &mut rng), num_spelling(v[2], &mut rng)];
             let sep = |rng: &mut Rng| -> String { match rng.below(4) { 0 => " ".into(), 1 => "\t".into(), 2 => "   ".into(), _ => " \t ".into() } };
@@ -202,6 +222,11 @@ pub fn run_read(out: &mut Out, seed: u64, tier: &str) {
             l += &syms[z - 1]; l += &sep(&mut rng); l += &t[0]; l += &sep(&mut rng); l += &t[1]; l += &sep(&mut rng); l += &t[2];
             if rng.chance(if selfref { 0.6 } else { 0.2 }) { l += &sep(&mut rng); l += *rng.pick(&["0.5", "junk", "1 2 3", "H", "0", "1.0", "frozen", "-0.25 0.1"]); }
             if rng.chance(0.2) { l += &sep(&mut rng); }
+            // a well-formed line of exactly / about a hinted length: padded with spaces between the fields
+            if c % 5 == 3 && !read_lens.is_empty() && rng.chance(0.4) {
+                let want = read_lens[rng.below(read_lens.len())] + rng.below(3) - 1;
+                if l.len() < want { let pad = " ".repeat(want - l.len()); if let Some(pos) = l.trim_start().find(char::is_whitespace) { let off = l.len() - l.trim_start().len(); l.insert_str(off + pos, &pad); } }
+            }
             lines.push(l);
             expect.push((z, t));
             if rng.chance(0.15) { lines.push("".into()); }
